@@ -25,4 +25,7 @@ theorem protected_roundtrip (o : Oracle) (enc : List Row) (dec : List DecStep)
   · simp only [b64urlDecStr, readBytes, unmarshalWith, PO.run_bind, PO.run_query, hd, PO.run_pure, hj]
     exact decodeWith_roundtrip o enc dec hfit h wf obj ho
 
+theorem jws_fit' : tablesFit jws.encRows jws.decSteps = true := by decide
+theorem jwe_fit' : tablesFit jwe.encRows jwe.decSteps = true := by decide
+
 end C11
